@@ -32,7 +32,7 @@ TRUSTED = ["np.fft.fft2/ifft2 and torch.fft.fft2/ifft2 compute the defining DFT 
            "torch.argmax/np.argmax return the first maximum; torch.round rounds half to even",
            "the correlation theorem (FFT product = spatial circular cross-correlation) is not proved in Lean; it is what the exact stream measures"]
 ASSUMPTIONS = ["image pairs whose correlation maximum is not unique (exact integer test) or whose float margins are below 1e-6 are rejected by the generator (counted in the distribution)",
-               "sub-pixel accuracy (<= 1/upsample_factor) is evaluated on band-limited images without Nyquist content only",
+               "sub-pixel accuracy (<= 1/upsample_factor) is evaluated on band-limited images without Nyquist content only; paths that do not upsample (NumPy up<=1, torch up<=2: parabolic estimate, torch rounds it to half a pixel) are held to one pixel",
                "the torch upsampling kernels are built in float32 by the library; that path is compared with tolerance 5e-4"]
 EXPLANATION = ("Theorems in Props/C13.lean are about Model/Registration.lean; every run drives the real estimators and the model "
                "with the same image pairs and compares peaks, refinements, patches and final shifts.")
@@ -202,10 +202,16 @@ def pred_swap(ctx, case, variant, ab, ba, M, N, up, tol):
 def pred_subpixel(ctx, case, variant, obs, M, N, t, up):
     exp = (centred(-t[0], M), centred(-t[1], N))
     err = max(mod_dist(obs[0], exp[0], M), mod_dist(obs[1], exp[1], N))
-    bound = 1.0 / max(up, 1)
-    ctx.stat_max(f"subpixel_err_x_up[{variant},up={up}]", err * max(up, 1))
+    # "within 1/upsample_factor, or the parabolic-refinement accuracy when not upsampling": the NumPy estimator
+    # upsamples for up > 1, the torch estimator only for up > 2 (for up <= 2 it returns the parabolic estimate
+    # rounded to half a pixel, whatever the factor).  The separable parabola on a broad oblique correlation ridge
+    # is off by up to ~0.55 px (measured), so the non-upsampled class is one pixel.
+    upsampled = up > 1 if variant == "np" else up > 2
+    bound = 1.0 / up if upsampled else 1.0
+    ctx.stat_max(f"subpixel_err_x_up[{variant},up={up}]" if upsampled else f"subpixel_err_px[{variant},up={up},not upsampled]",
+                 err * up if upsampled else err)
     if not err <= bound + 1e-9:
-        ctx.pred_fail(f"{variant}-subpixel-{up_key(up)}", "sub-pixel shift of a band-limited image not recovered to within one (upsampled) pixel",
+        ctx.pred_fail(f"{variant}-subpixel-{'upsampled' if upsampled else 'parabolic'}", "sub-pixel shift of a band-limited image not recovered to within one (upsampled) pixel",
                       case, observed=[float(obs[0]), float(obs[1])], required={"shift": list(exp), "bound": bound})
         return False
     return True
